@@ -273,8 +273,13 @@ STRICT = [['c1', 'root'], ['c2', 'c1'], ['c3', 'c2'], ['d1', 'root'], ['d2', 'c1
 PEER = STRICT + [['c1', 'c1'], ['c1', 'c2'], ['c1', 'c3'], ['c1', 'x'], ['c2', 'root'], ['c3', 'root'], ['x', 'root']]
 
 
-def random_world(rng, algs=None):
-    sch = rng.choice(['strict'] * 5 + ['peer'] * 3 + ['two', 'twin'])
+def random_world(rng, algs=None, recert=False):
+    """recert: a world around a RE-CERTIFIED key (TrustChain.tla: ReWorld, here at random places and sizes): the key of C1
+    (certified by a root) certifies a line of 0..3 further certificates, the last of which certifies the key of C1 again
+    (C1b, same key name, other issuer); packets and a further certificate are signed with that key and name C1b, others
+    name C1. Only the overlapping-rule schema lets a key name come back on a chain. Everything else (faults, forgeries,
+    full / key names, loops, storages, histories) is drawn as in every world."""
+    sch = 'peer' if recert else rng.choice(['strict'] * 5 + ['peer'] * 3 + ['two', 'twin'])
     rel = {'strict': STRICT, 'peer': PEER, 'two': STRICT + [['r1', 'oproot']], 'twin': STRICT + [['e1', 'root']]}[sch]
     signer_shapes = {}
     for a, b in rel:
@@ -297,6 +302,23 @@ def random_world(rng, algs=None):
     for n in cn:
         shape[n] = rng.choice(['c1', 'c1', 'c2', 'c3', 'x']) if sch != 'peer' else rng.choice(['c1', 'c1', 'c1', 'c2', 'x'])
     shape['Z'] = rng.choice(['c1', 'c2'])       # a certificate name that is referred to but does not exist
+    forced, line, below = {}, [], None
+    if recert:
+        kids = {sh: [a for a, b in rel if b == sh and a[0] == 'c'] for sh in ('c1', 'c2', 'c3')}
+        shape['C1'] = 'c1'
+        forced['C1'] = rng.choice(roots)
+        rest = cn[1:]
+        rng.shuffle(rest)
+        line = rest[:rng.randint(0, min(3, len(rest)))]
+        prev = 'C1'
+        for n in line:
+            shape[n] = rng.choice(kids[shape[prev]])
+            forced[n] = prev
+            prev = n
+        if len(rest) > len(line) and rng.random() < 0.6:
+            below = rest[len(line)]               # a certificate issued with the re-certified key that names C1b
+            shape[below] = rng.choice(kids['c1'])
+            forced[below] = 'C1b'
     by_shape = {}
     for n in roots + cn:
         by_shape.setdefault(shape[n], []).append(n)
@@ -311,9 +333,9 @@ def random_world(rng, algs=None):
             return 'Z'
         return rng.choice(roots + cn)
     for n in cn:
-        s = pick_signer(shape[n])
+        s = forced.get(n) or pick_signer(shape[n])
         x = rng.random()
-        certs[n] = {'key': 'k' + n, 'kl': s, 'sig': 'k' + s if s != 'Z' else 'kC1',
+        certs[n] = {'key': 'k' + n, 'kl': s, 'sig': 'k' + s if s not in ('Z', 'C1b') else 'kC1',
                     'serv': 'yes' if x < 0.8 else rng.choice(['nack', 'timeout', 'absent'])}
         y = rng.random()
         if y < 0.06:
@@ -326,8 +348,15 @@ def random_world(rng, algs=None):
             certs[n]['sig'] = rng.choice(['hmac', 'unknownsig', 'hmacpub', 'digestkl', 'wrongtype', 'wrongcurve'])
     # a second certificate of the key name of C1 / C2 (other issuer component): forged, or not retrievable
     twin = {}
+    if recert:
+        iss = line[-1] if line else 'C1'
+        shape['C1b'] = 'c1'
+        twin['C1b'] = 'C1'
+        certs['C1b'] = {'key': 'kC1', 'kl': iss, 'sig': 'k' + iss, 'serv': 'yes' if rng.random() < 0.9 else rng.choice(['nack', 'timeout', 'absent'])}
+        if rng.random() < 0.15:
+            certs['C1']['kl'], certs['C1']['sig'] = 'C1b', 'kC1'       # a loop through both certificates of the key
     for base in ('C1', 'C2'):
-        if rng.random() < 0.4:
+        if base + 'b' not in twin and rng.random() < 0.4:
             t = base + 'b'
             twin[t] = base
             shape[t] = shape[base]
@@ -350,6 +379,12 @@ def random_world(rng, algs=None):
             pkts[p]['sig'] = rng.choice(['hmac', 'unknownsig', 'hmacpub', 'digestkl', 'wrongtype', 'wrongcurve'])   # right certificate, no valid signature
         elif pkts[p]['kl'] + 'b' in twin and y < 0.5:
             pkts[p]['kl'] += 'b'                  # signed by the same key, names the other certificate of that key name
+    if recert:
+        # packets signed with the re-certified key that name its lower / its upper certificate, and one under `below`
+        for p, signer in (('P8', below), ('P9', 'C1b'), ('P10', 'C1'), ('P7', 'C1b')):
+            if signer and (p != 'P7' or rng.random() < 0.5):
+                shape[p] = {'c1': 'd2', 'c2': 'd3', 'c3': 'd4'}[shape[signer]]
+                pkts[p] = {'kl': signer, 'sig': 'k' + twin.get(signer, signer)}
     replay = {}
     if rng.random() < 0.4 and pkts['P1']['kl'] != 'none':
         # P1r: other name and content, SignatureValue of P1 (validated before or after P1, by any instance)
@@ -614,7 +649,13 @@ def stage_a(ctx):
     # FreshnessPeriod of the certificates on the way
     big.append(('FreshnessPeriod of certificates', consts(['v1'], 2, 'WFresh', anchors='MCAnchorsGood'), INVS, [], False, False))
     # the declarative ChainExists equals the walk on every world (no instances: initial states only)
-    big.append(('ChainDefsAgree', consts([], 0, 'WAll4'), ['ChainDefsAgree'], [], False, False))
+    big.append(('ChainDefsAgree', consts([], 0, 'WAll4Re'), ['ChainDefsAgree'], [], False, False))
+    # re-certified keys: one key with two certificates that both lie on the chain (2..4 fetched certificates), fresh and
+    # warmed instances, loops through both certificates
+    big.append(('re-certified keys, %d validations' % ctx.pick(2, 3), consts(INSTS2, ctx.pick(2, 3), ctx.pick('WReQ', 'WReT'), anchors='MCAnchorsGood'),
+                INVS, [], False, True))
+    big.append(('liveness re-certified keys', consts(['v1'], ctx.pick(1, 2), ctx.pick('WReQ', 'WReT'), anchors='MCAnchorsGood',
+                                                     slots=ctx.pick(['v1'], ['v1', 'v1b'])), ['TypeOK'], ['Terminates'], False, False))
     jobs = []
     for name, cs, invs, props, cov, heavy in big:
         cfgp = os.path.join(tlc.BUILD, 'TrustChain_a_%s_%s.cfg' % (name.replace('<=', '').replace(', ', '_').replace(' ', '_'), ctx.tier))
@@ -641,7 +682,7 @@ def stage_a(ctx):
     small = []
     for wname in ('W_AcceptDeep', 'W_CacheHit', 'W_Refused', 'W_RejectOtherAnchor', 'W_TwoInFlight', 'W_HealedAccept',
                   'W_TwoRootsAccept', 'W_TwoRootsRefuse', 'W_SameInstanceTwice', 'W_AcceptMixedAlgs', 'W_RejectBigKeyLink',
-                  'W_PinAccept', 'W_PinTwinAccept', 'W_Refetch', 'W_Evicted') + (() if ctx.quick else ('W_PinBoth', 'W_Forgot')):
+                  'W_PinAccept', 'W_PinTwinAccept', 'W_Refetch', 'W_Evicted', 'W_RecertAccept', 'W_RecertWarm', 'W_RecertLoop') + (() if ctx.quick else ('W_PinBoth', 'W_Forgot')):
         wp = os.path.join(tlc.BUILD, 'TrustChain_w_%s.cfg' % wname)
         tlc.write_cfg(wp, constants=consts(INSTS2, 2, 'WHeal', anchors='MCAnchorsGood', maxheal=1) if wname == 'W_HealedAccept' else
                       consts(INSTS2, 1, 'W2R', anchors='MCAnchors2') if wname.startswith('W_TwoRoots') else
@@ -649,6 +690,7 @@ def stage_a(ctx):
                       consts(['v1'], 1, 'WAlgQ', anchors='MCAnchorsAlg') if wname in ('W_AcceptMixedAlgs', 'W_RejectBigKeyLink') else
                       consts(['v1'], 1, 'WPin2', anchors='MCAnchorsGood') if wname in ('W_PinAccept', 'W_PinTwinAccept') else
                       consts(['v1'], 2, 'WPinO', anchors='MCAnchorsGood', slots=['v1', 'v1b']) if wname == 'W_PinBoth' else
+                      consts(['v1'], 2, 'WReH', anchors='MCAnchorsGood') if wname.startswith('W_Recert') else
                       consts(['v1'], 3 if wname == 'W_Evicted' else 2, 'WStore', anchors='MCAnchorsGood', stores='MCStoreQ')
                       if wname in ('W_Refetch', 'W_Evicted', 'W_Forgot') else
                       consts(INSTS2, 2, 'W3'),
@@ -750,6 +792,10 @@ def run(ctx):
             # key storages (the library's MemoryKeyStorage / EmptyKeyStorage, the application's unbounded / bounded one, Forget)
             ('storage', consts(['v1'], ctx.pick(2, 3), 'WStore', unk, has, anchors='MCAnchorsGood', stores=ctx.pick('MCStoreQ', 'MCStoreT')), kts,
              ctx.pick(150, 6000)),
+            # re-certified keys (one key, two certificates, both on the chain: 2..4 fetched certificates): every place of the
+            # key on the chain x every packet on a fresh instance; then fresh against warmed instances, both orders
+            ('recert', consts(['v1'], 1, ctx.pick('WReQ', 'WReT'), unk, has, anchors='MCAnchorsGood'), kts, None),
+            ('recert-history', consts(INSTS2, 2, ctx.pick('WReH', 'WReT'), unk, has, anchors='MCAnchorsGood'), kts, ctx.pick(60, 4000)),
             # FreshnessPeriod of the certificates on the way (fetched with MustBeFresh)
             ('fresh', consts(['v1'], 2, 'WFresh', unk, has, anchors='MCAnchorsGood'), kts, ctx.pick(40, 2000))], pool, cache)
         ctx.note('stage B wall %.0fs (incl. learning)' % (time.time() - t1))
@@ -759,7 +805,9 @@ def run(ctx):
         recs = []
         for i in range(n):
             has, unk = forced
-            world = random_world(ctx.rng, [a for a in FAST if a != 'ed' or not (has or unk)] + ['rsa2048'] + ([] if ctx.quick else ['rsa3072']))
+            # every 5th world is built around a re-certified key (two certificates of one key on one chain)
+            world = random_world(ctx.rng, [a for a in FAST if a != 'ed' or not (has or unk)] + ['rsa2048'] + ([] if ctx.quick else ['rsa3072']),
+                                 recert=(i % 5 == 3))
             rec, errs, bg = record(world, ctx.rng, pool, same_app=(i % 3 == 2))
             if errs:
                 ctx.violation('C14/lvs_validator/executor-error', errs[0], {'kind': 'trace', 'rec': rec})
